@@ -4,9 +4,11 @@ Monitor: a generated template library (inclusion graph + flag set + redirect pla
 with add_page, the real Wtp.analyze_templates is run with a table-driven classifier (returns the
 used names *as written* and the flag), and need_pre_expand of Wtp.get_all_pages([Template ns]) is
 compared with the closure model of vf/ref/c17_closure.py (written from the statement; name
-resolution = the page-store title rules, not the code).  Accepted: two_phase <= marked <= full (the
-two readings of "plus redirects from or to a marked template"); on the unchanged tree marked ==
-two_phase is what the code computes, any result strictly in between is only counted.
+resolution = the page-store title rules, not the code).  The marked set must EQUAL the closure: the least
+set closed under all three rules of the statement at once (inclusion, redirect to, redirect from), seeded
+with the flagged templates and with what was marked before the analysis.  (The one-hop reading of the
+redirect clause that earlier versions tolerated as a lower bound is only used to NAME a disagreement.)
+A second oracle needs no model: analysing the unchanged store once more must not change the marks.
 Histories: "readd" rounds store the same titles again and re-analyse; "grow" rounds ADD new templates to
 the long-lived store and re-analyse, the model being the closure of the current (union) store seeded
 additionally with what was marked before (monotone marks); pages may be stored pre-marked.
@@ -35,7 +37,8 @@ RULE = ("libraries of 1-8 Template pages: EXHAUSTIVE for <=3 pages (every adjace
         "redirect placement incl. self-redirects; quick tier: n<=2 complete, n=3 complete without redirect pages plus a "
         "seeded sample of the 258 048 n=3 libraries with redirect pages; thorough: all 262 144), plus seeded random "
         "libraries (12 shapes: random density, chain, ring, layered diamond, stars, complete, two rings, tree, ladder; "
-        "flag sets one/end/two/none/all/random; redirects to page/self/absent/chains, redirect pages that the classifier "
+        "flag sets one/end/two/none/all/random; redirects to page/self/absent/chains, in spelled libraries 30% of the redirect targets written "
+        "Template:b_c / Template:b c / T:B c / template:B c, redirect pages that the classifier "
         "also classifies; used names canonical or spelled lower-initial / Template: / template: / T: / underscore and "
         "combinations; non-resolving decoy names; titles with blanks, unicode, stored lower-case initial + upper-case "
         "twin, quotes, %, inner colon, and titles NOT in Unicode NFC (base+combining mark, OHM/ANGSTROM SIGN, Hangul jamo, "
@@ -47,13 +50,12 @@ RULE = ("libraries of 1-8 Template pages: EXHAUSTIVE for <=3 pages (every adjace
         "non-trivial = the model marks at least one page that the classifier did not flag")
 ASSUMPTIONS = [
     "the classifier is a pure table lookup on page.title (no dependence on page bodies), the same table in every round of a history",
-    "stores with a history: marks are monotone; lower bound = every derivation from a flagged template in the CURRENT store plus what "
-    "was marked before the analysis (earlier analysis / add_page(need_pre_expand=True)); upper bound = joint least fixpoint seeded "
-    "with flagged + already marked; includers of a pre-marked template that the classifier does not flag are allowed, not required",
-    "redirect targets are written as canonical stored titles of the Template namespace (as a dump's <redirect title=> is); "
-    "redirect targets spelled differently are not generated",
-    "two readings of the redirect clause are both accepted: one-hop after the inclusion fixpoint (lower bound) and the joint least "
-    "fixpoint (upper bound); results strictly between are counted, not reported",
+    "stores with a history: marks are monotone; the closure is that of the CURRENT store, seeded with the flagged templates and "
+    "with everything that was marked before the analysis (earlier analysis / add_page(need_pre_expand=True))",
+    "a redirect page points at the template that the page store resolves its stored target title to (C10 title rules: "
+    "'_' = blank, prefix alias / other case, lower-case initial); targets are always written WITH a Template-namespace prefix",
+    "'redirects from or to a marked template' is read as part of the least fixed point ('exactly the closure'): a template marked "
+    "through a redirect counts as marked for includers and for further redirects",
     "name resolution of used names follows the page-store title rules as stated in C10; leading/trailing blanks in names are not generated",
     "per-analysis CPU budget 3 s (ITIMER_VIRTUAL; a normal analysis takes < 5 ms) stands for 'terminates'; a shard stops after 3 "
     "budget overruns",
@@ -69,7 +71,7 @@ EXH3_SAMPLE_PER_SHARD = {"quick": 500, "thorough": 0}
 
 def floors(tier):
     f = {
-        "oracle.closure-sandwich": 20000 if tier == "quick" else 500000,
+        "oracle.closure-exact": 20000 if tier == "quick" else 500000,
         "oracle.terminates": 20000 if tier == "quick" else 500000,
         "counters.exh.n1.graphs": G.exh_size(1), "counters.exh.n2.graphs": G.exh_size(2),
         "counters.exh.n3.plain.graphs": G.exh_plain_size(3),
@@ -78,6 +80,8 @@ def floors(tier):
         "counters.graph.cyclic": 3000, "counters.graph.self-inclusion": 1000, "counters.graph.multipath": 1000,
         "counters.model.propagated": 5000, "counters.model.redirect-source-marked": 500,
         "counters.model.redirect-target-marked": 500, "counters.model.readings-differ": 100,
+        "counters.model.beyond-one-hop.inclusion": 300, "counters.model.beyond-one-hop.redirect": 300,
+        "counters.graph.redirect-target-not-spelled-as-stored-title": 300, "oracle.idempotent": 10000,
         "counters.edge.noncanonical": 2000, "counters.rounds.later": 500, "counters.n.8": 100,
         "counters.flagged-redirect-page": 200,
         "counters.graph.title-not-in-NFC": 5000, "counters.edge.into-or-out-of-title-not-in-NFC": 10000,
@@ -88,7 +92,6 @@ def floors(tier):
         "counters.history.new-derivation-only-through-already-marked-unflagged": 200,
         "anchors.Wtp.analyze_templates": 20000 if tier == "quick" else 500000,
         "anchors.Wtp.set_template_pre_expand": 20000, "anchors.Wtp.get_page": 10000,
-        "counters.sql.redirect-source-update": 20000, "counters.sql.redirect-target-update": 20000,
         "nontrivial": 4000,
     }
     return f
@@ -116,10 +119,11 @@ def _classifier(table, calls):
     return check
 
 
-def run_rounds(case, sql=None):
+def run_rounds(case, sql=None, again=False):
     """Store + analyse every round in ONE fresh context; -> list of (marked-title set, classifier calls), one
     per round.  mode "readd": every round stores its pages (again); mode "grow": every round adds its (new)
-    pages and the classifier table is the union.  Raises CpuBudget / any exception of the code under test
+    pages and the classifier table is the union.  again=True appends the result of one more analysis of the
+    unchanged final store.  Raises CpuBudget / any exception of the code under test
     (tagged with .round)."""
     from vf.core.wtp import fresh
     out = []
@@ -149,6 +153,17 @@ def run_rounds(case, sql=None):
                 e.round = k
                 raise
             out.append(({p.title for p in ctx.get_all_pages([10]) if p.need_pre_expand}, calls))
+        if again and out:
+            # idempotence probe: the same analysis of the now unchanged store
+            calls = []
+            try:
+                with cpu_guard(BUDGET):
+                    signal.setitimer(signal.ITIMER_VIRTUAL, BUDGET, 0.25)
+                    ctx.analyze_templates(_classifier(table, calls))
+            except BaseException as e:
+                e.round = len(out) - 1
+                raise
+            out.append(({p.title for p in ctx.get_all_pages([10]) if p.need_pre_expand}, calls))
     return out
 
 
@@ -163,29 +178,46 @@ ORDER = ["already-marked-before-analysis", "flagged-template", "includer-of-mark
 
 
 def judge(graph, got, before=()):
-    """-> (model, [(rule, category, detail)]) for one analysed library."""
+    """-> (model, [(rule, category, detail)]) for one analysed library: marked set == closure, exactly."""
     m = M.closure(graph, before)
     probs = []
-    missed = m["two_phase"] - got
+    missed = m["full"] - got
     over = got - m["full"]
     if missed:
-        cat = min((m["why"][t] for t in missed), key=ORDER.index)
-        if cat == "includer-of-marked":
-            cat = M.refine_missed(m, got) or cat
+        base = missed & m["two_phase"]
+        if base:
+            cat = min((m["why"][t] for t in base), key=ORDER.index)
+            if cat == "includer-of-marked":
+                cat = M.refine_missed(m, got) or cat
+        else:
+            # everything up to the one-hop reading is there: name the first rule application that is missing
+            lay = min(m["beyond"][t][0] for t in missed)
+            rules = {m["beyond"][t][1] for t in missed if m["beyond"][t][0] == lay}
+            cat = ("includer-of-template-marked-via-redirect" if "inclusion" in rules
+                   else "redirect-of-template-marked-via-redirect")
         probs.append(("missed", cat, "not marked: %s (model: %s)" % (
             sorted(missed), {t: m["why"][t] for t in sorted(missed)})))
     if over:
         red = {p["t"] for p in graph["pages"] if p["r"] is not None}
         cat = "unknown-title" if over - m["titles"] else ("redirect-page" if over & red else "plain-template")
-        probs.append(("overmarked", cat, "marked but outside every reading of the closure: %s" % sorted(over)))
+        probs.append(("overmarked", cat, "marked but outside the closure: %s" % sorted(over)))
     return m, probs
+
+
+def idem(got, got2):
+    """Metamorphic oracle (no model): analysing the unchanged store once more must not change the marks."""
+    if got2 == got:
+        return []
+    cat = "second-analysis-of-unchanged-store-marks-more" if got2 > got else "second-analysis-of-unchanged-store-changes-marks"
+    return [("not-idempotent", cat, "first analysis marked %s, the same analysis again: +%s -%s" % (
+        sorted(got), sorted(got2 - got), sorted(got - got2)))]
 
 
 def outcome(case):
     """Run a case on the real code and judge its LAST round.  -> list of (rule, category, detail)."""
     rounds = case["rounds"]
     try:
-        res = run_rounds(case)
+        res = run_rounds(case, again=True)
     except CpuBudget as e:
         m = M.closure(M.graph_at(case, e.round))
         return [("does-not-return", "cyclic-inclusion" if M.cyclic(m["inc"]) else "acyclic-inclusion",
@@ -194,7 +226,10 @@ def outcome(case):
     except Exception as e:
         return [("raises", exc_sig(e), repr(e)[:300])]
     k = len(rounds) - 1
-    return judge(M.graph_at(case, k), res[k][0], before_of(case, k, res))[1]
+    probs = judge(M.graph_at(case, k), res[k][0], before_of(case, k, res))[1]
+    if not probs:
+        probs = idem(res[k][0], res[k + 1][0])
+    return probs
 
 
 def find(probs, rule):
@@ -249,7 +284,7 @@ def collapse(case):
 
 def diagnose(case, probs):
     """Name the mechanism of each problem of `case` by dropping features until it disappears:
-    redirect pages -> history (earlier analyses) -> non-canonical spellings.  A feature whose removal makes
+    redirect-target spellings -> redirect pages -> history (earlier analyses) -> non-canonical spellings.  A feature whose removal makes
     the disagreement vanish is the mechanism tag (redirects: the category already says so); otherwise the
     simpler case replaces the witness and the category (why the model marks the missed page) is taken from
     the simplest failing version, so that a propagation failure that merely *shows* in the redirect phase is
@@ -262,14 +297,23 @@ def diagnose(case, probs):
             continue
         wit = case
         tag = None
-        if any(p["r"] is not None for r in wit["rounds"] for p in r["pages"]):
+        c = M.canonicalise_redirects_case(wit)
+        if c != wit:
+            o = outcome(c)
+            if not broken(o):
+                f = find(o, rule)
+                if f is None:
+                    tag = "redirect-target-not-spelled-as-stored-title"
+                else:
+                    wit, (cat, detail) = c, f
+        if tag is None and any(p["r"] is not None for r in wit["rounds"] for p in r["pages"]):
             c = drop_redirects(wit)
             o = outcome(c)
             if not broken(o):
                 f = find(o, rule)
                 if f is not None:
                     wit, (cat, detail) = c, f
-        if cat not in ALREADY and len(wit["rounds"]) > 1:
+        if tag is None and cat not in ALREADY and len(wit["rounds"]) > 1:
             c = collapse(wit)
             o = outcome(c)
             if not broken(o):
@@ -332,6 +376,12 @@ def _simpler(cur):
                 if p.get(key):
                     c = cp()
                     c["rounds"][ri]["pages"][pi][key] = val
+                    yield c
+            if p["r"] is not None:
+                t = M.resolve(p["r"], tset)
+                if t is not None and t != p["r"]:
+                    c = cp()
+                    c["rounds"][ri]["pages"][pi]["r"] = t
                     yield c
             for ui, w in enumerate(p["u"]):
                 c = cp()
@@ -396,6 +446,11 @@ class Shard:
             obs.count("graph.self-inclusion")
         if M.multipath(m["inc"], m["flagged"]):
             obs.count("graph.multipath")
+        if m["spelled_redirects"]:
+            obs.count("graph.redirect-target-not-spelled-as-stored-title")
+        for t, (lay, rule) in m["beyond"].items():
+            obs.count("model.beyond-one-hop." + rule)
+            obs.maxi("closure_rounds_beyond_one_hop", lay)
         if m["redirect"]:
             obs.count("graph.with-redirect-pages")
             if any(m["redirect"].get(t) in m["redirect"] for t in m["redirect"]):
@@ -427,11 +482,11 @@ class Shard:
             obs.count("model.redirect-target-marked")
         if m["full"] != m["two_phase"]:
             obs.count("model.readings-differ")
-        if not m["two_phase"]:
+        if not m["full"]:
             obs.count("model.nothing-marked")
-        elif m["two_phase"] == m["titles"]:
+        elif m["full"] == m["titles"]:
             obs.count("model.everything-marked")
-        obs.maxi("marked", len(m["two_phase"]))
+        obs.maxi("marked", len(m["full"]))
         if later:
             obs.count("rounds.later")
 
@@ -442,7 +497,7 @@ class Shard:
         for f in feats:
             obs.add("features", f)
         try:
-            res = run_rounds(case, sql=self._sql)
+            res = run_rounds(case, sql=self._sql, again=True)
             err = None
         except CpuBudget as e:
             err, res = e, None
@@ -474,8 +529,8 @@ class Shard:
             g = M.graph_at(case, k)
             m, probs = judge(g, got, before_of(case, k, res))
             obs.check("terminates")
-            obs.check("closure-sandwich")
-            nontriv = bool(m["derived"] - m["flagged"])
+            obs.check("closure-exact")
+            nontriv = bool(m["full"] - m["flagged"] - m["before"])
             obs.case(sub, nontrivial=nontriv,
                      sample={"gen": gen, "case": sub, "marked": sorted(got)} if nontriv and len(g["pages"]) >= 4 else None)
             obs.count(gen + ".graphs")
@@ -491,16 +546,15 @@ class Shard:
                     obs.count("history.flagged-template-already-marked")
                 for kind in M.history_triggers(m):
                     obs.count("history.new-derivation-only-through-already-marked-" + kind)
-                if m["derived"] - m["before"]:
+                if m["full"] - m["before"]:
                     obs.count("history.model-marks-more-than-before")
             obs.count("classifier.calls", len(calls))
             if sorted(calls) != sorted(m["titles"]):
                 obs.count("classifier.not-once-per-template")
+            if not probs and k == len(rounds) - 1:
+                obs.check("idempotent")
+                probs = idem(got, res[k + 1][0])
             if not probs:
-                if got == m["two_phase"]:
-                    obs.count("result.equals-one-hop-reading")
-                else:
-                    obs.count("result.strictly-between-readings")
                 continue
             for sig, msg, wit in diagnose(sub, probs):
                 obs.count("disagreement." + sig)
@@ -562,5 +616,5 @@ def replay(case):
         m = M.closure(g)
     return {"violations": [(s, msg) for s, msg, _ in d], "marked": got,
             "marked_before_this_analysis": sorted(m["before"]),
-            "model_lower_bound": sorted(m["two_phase"]), "model_upper_bound": sorted(m["full"]),
+            "model_closure": sorted(m["full"]), "model_one_hop_reading": sorted(m["two_phase"]),
             "why": {t: m["why"][t] for t in sorted(m["why"])}}
